@@ -246,6 +246,77 @@ def work(chunk, cif2, tier):
     return (n, out)
 
 
+CORE_ATOMS = ['a', '1.5(3)', '', "it's", 'x"y', ';', 'a\\', '[a]', 'loop_', '\u00e9\U0001F600', 'a\n;b', 'trail ', 'a\n', '?']
+
+
+def core_tokens(cif2):
+    """a reduced token set for three-token documents: every presentation of the core atoms, the two special values"""
+    return [t for t in tokens(cif2, 'thorough') if (t[0][0] != 's' or t[0][1] in CORE_ATOMS)]
+
+
+def build_doc3(struct, toks, sep, cif2):
+    v = [t[2] for t in toks]
+    a = [t[0] for t in toks]
+
+    def S(tok):
+        return '' if tok.startswith('\n') else sep
+
+    def A(tok):
+        return sep if tok.endswith('\n;') else ''
+    head = '#\\#CIF_2.0\n' if cif2 else '#\\#CIF_1.1\n'
+    if struct == 'loop1x3':
+        return head + 'data_b' + sep + 'loop_' + sep + '_a' + S(v[0]) + v[0] + S(v[1]) + v[1] + S(v[2]) + v[2] + '\n', \
+            {'b': {'loops': [[('_a',), [(a[0],), (a[1],), (a[2],)]]], 'frames': {}}}
+    if struct == 'loop3x1':
+        return head + 'data_b' + sep + 'loop_' + sep + '_a' + sep + '_b' + sep + '_c' + S(v[0]) + v[0] + S(v[1]) + v[1] + S(v[2]) + v[2] + sep + 'data_c\n', \
+            {'b': {'loops': [[('_a', '_b', '_c'), [(a[0], a[1], a[2])]]], 'frames': {}}, 'c': {'loops': [], 'frames': {}}}
+    if struct == 'list3':
+        return head + 'data_b' + sep + '_a' + sep + '[' + v[0] + (S(v[1]) or A(v[0])) + v[1] + (S(v[2]) or A(v[1])) + v[2] + A(v[2]) + ']\n', \
+            {'b': {'loops': [[('_a',), [(('l', (a[0], a[1], a[2])),)]]], 'frames': {}}}
+    raise ValueError(struct)
+
+
+def work3(chunk, cif2):
+    ex = worker_exec('fast')
+    T = core_tokens(cif2)
+    out, n = [], 0
+    ex.run(['reset', 'cif.new C0'])
+    for struct, i, j, seps in chunk:
+        lines, metas = [], []
+        for k in range(len(T)):
+            for sep in seps:
+                toks = (T[i], T[j], T[k])
+                text, exp = build_doc3(struct, toks, sep, cif2)
+                if max(len(l) for l in text.split('\n')) > 2048:
+                    continue
+                opts = '' if cif2 else 'p2=-1'
+                lines.append('bytes.set B0 %s' % text.encode('utf-8', 'surrogatepass').hex())
+                lines.append('parse.reuse C0 B0 %s' % opts)
+                metas.append((text, exp))
+        if not lines:
+            continue
+        try:
+            ans = ex.run(lines)
+        except Crash as c:
+            out.append(('crash', struct, repr((T[i][2], T[j][2])), '%s %s' % (c, c.stderr[-800:])))
+            ex = worker_exec('fast')
+            ex.run(['reset', 'cif.new C0'])
+            continue
+        for q, (text, exp) in enumerate(metas):
+            a = ans[2 * q + 1]
+            n += 1
+            if not isinstance(a, dict):
+                out.append(('driver', struct, text, repr(a)))
+                continue
+            if a['rc'] != 0 or a['nerr'] != 0:
+                out.append(('error', struct, text, 'rc %d, error callbacks %r' % (a['rc'], a['errs'][:3])))
+                continue
+            got = canon_dump(a['dump'])
+            if got != canon_exp_values(exp):
+                out.append(('content', struct, text, 'parsed %s\nexpected %s' % (json.dumps(got, default=str)[:700], json.dumps(canon_exp_values(exp), default=str)[:700])))
+    return (n, out)
+
+
 def main():
     tier = sys.argv[1] if len(sys.argv) > 1 else 'quick'
     rep = Report('C01', tier, 'exploration')
@@ -277,9 +348,25 @@ def main():
                 rep.violation({'dialect': 'CIF2' if cif2 else 'CIF1.1', 'kind': kind, 'structure': struct, 'doc': text[:60] if len(text) < 300 else text[:40] + '...'},
                               {'dialect': 'CIF2' if cif2 else 'CIF1.1', 'structure': struct, 'document': text[:3000], 'message': msg})
         nontriv += len(T) * len(T)
+        if tier != 'quick' or os.environ.get('C01_TRIPLES'):
+            # three-token documents over the reduced token set: a token between two others, in a loop row, a loop column and a list
+            Tc = core_tokens(cif2)
+            structs3 = ['loop1x3', 'loop3x1'] + (['list3'] if cif2 else [])
+            jobs3 = [(st, i, j, [' ', '\n']) for st in structs3 for i in range(len(Tc)) for j in range(len(Tc))]
+            summary[('cif2' if cif2 else 'cif1.1') + ' triples'] = {'core_tokens': len(Tc), 'structures': structs3}
+            for res in pmap(work3, chunked(jobs3, max(1, len(jobs3) // (NPROC * 6))), (cif2,)):
+                if isinstance(res, dict):
+                    rep.violation({'kind': 'executor'}, res)
+                    continue
+                n, out = res
+                total += n
+                for kind, struct, text, msg in out:
+                    rep.violation({'dialect': 'CIF2' if cif2 else 'CIF1.1', 'kind': kind, 'structure': struct, 'doc': text[:60] if len(text) < 300 else text[:40] + '...'},
+                                  {'dialect': 'CIF2' if cif2 else 'CIF1.1', 'structure': struct, 'document': text[:3000], 'message': msg})
+            nontriv += len(Tc) ** 3
     return rep.finish({'evaluations': total, 'distinct_nontrivial': nontriv,
                        'rule': 'every document with 2 value tokens: ordered pairs over all (atom, presentation) tokens (%d atoms; presentations bare, single/double quoted, triple quoted, text field, folded text field with cuts, prefixed, prefixed+folded as admissible) '
-                               'in structures %s (CIF 1.1: %s), separators %r (full cross product for scalar pairs and loops), with and without the version comment; content known by construction from the generator. '
+                               'in structures %s (CIF 1.1: %s), separators %r (full cross product for scalar pairs and loops), with and without the version comment; thorough: also every ordered TRIPLE over the reduced token set (all presentations of 14 core atoms) in a loop row, a loop column and a list; content known by construction from the generator. '
                                'non-trivial = distinct ordered token pairs' % (len(ATOMS), STRUCTS2, STRUCTS1, SEPS),
                        'samples': ["#\\#CIF_2.0\ndata_b _a 'it''s'...", 'loop_ _a <text field> <triple quoted>'], 'dialects': summary, 'exhaustive': True},
                       ['the generator (mc/c01.py: presentations(), fold_encode(), build_doc()) is the independent statement of the grammar',
